@@ -860,7 +860,7 @@ int main(int argc, char **argv)
     if (args.has("replay-raw")) { return xs::replay_main(h, args.get("replay-raw")); }
     return vx::run_contained([&] {
         if (mode == "cmp") { run_cmp(h.N, h.job); return; }
-        if (mode == "rich" && !h.faults) { byte_sweep(h.job); shim::reset(); }
+        if (mode == "rich" && !h.faults) { byte_sweep(h.job); shim::reset(); vx::mark(nullptr); }
         xs::Explorer<Harness> ex(h);
         ex.job = h.job;
         ex.run();
